@@ -69,7 +69,8 @@ def main():
             dst = os.path.join(VERIF, "seeded", name)
             os.makedirs(dst, exist_ok=True)
             for f in ("patch.diff", "demo.py", "notes.md"):
-                if os.path.exists(os.path.join(src, f)):
+                if os.path.exists(os.path.join(src, f)) and \
+                        os.path.realpath(os.path.join(src, f)) != os.path.realpath(os.path.join(dst, f)):
                     shutil.copy(os.path.join(src, f), os.path.join(dst, f))
             old = {}
             mp = os.path.join(dst, "meta.json")
